@@ -143,6 +143,41 @@ def main(tier, seed, replay=None):
         classes = [("Solver", claripy.Solver, True), ("SolverCacheless", claripy.SolverCacheless, True),
                    ("SolverComposite", claripy.SolverComposite, False)]
         iters = 260 if tier == "quick" else 6000
+        # targeted: constant merge conditions and participants that hold a concrete False (found by the thorough tier:
+        # the composite's merged .constraints lost the False that makes it unsatisfiable)
+        for cname, cls, _m in classes:
+            if fail:
+                break
+            for conds_t, falses in ((("F", "c", "c"), (1, 2)), (("F", "c"), (1,)), (("F",), ()), (("c", "F", "c"), (0,)), (("T", "F"), (0,))):
+                parts, want_terms = [], []
+                conds = []
+                for j, ct in enumerate(conds_t):
+                    sj = cls()
+                    cs = [rng.choice(forms[:16])() for _ in range(2)]
+                    if j in falses:
+                        cs.insert(1, claripy.false())
+                    for c_ in cs:
+                        sj.add(c_)
+                    cond = claripy.false() if ct == "F" else claripy.true() if ct == "T" else rng.choice(forms[:16])()
+                    parts.append(sj)
+                    conds.append(cond)
+                    want_terms.append(claripy.And(cond, *cs))
+                ctx = {"class": cname, "operation": "merge (targeted: constant conditions / unsatisfiable participants)",
+                       "solvers": [[str(c) for c in p_.constraints] for p_ in parts], "conditions": [str(c) for c in conds]}
+                try:
+                    _, merged = parts[0].merge(parts[1:], conds)
+                    stats["merge_targeted_" + cname] += 1
+                    got, expect = mset(merged.constraints), mset([claripy.Or(*want_terms)])
+                    if got != expect:
+                        bad("merge: the merged constraints have a different model set (%d models, expected %d)" % (len(got), len(expect)),
+                            merged=[str(c) for c in merged.constraints], **ctx)
+                        break
+                    if merged.satisfiable() != bool(expect):
+                        bad("merge: satisfiable() of the merged solver is %s, enumeration says %s" % (merged.satisfiable(), bool(expect)), **ctx)
+                        break
+                except claripy.errors.ClaripyError as ex:
+                    bad("merge raised %s" % type(ex).__name__, **ctx)
+                    break
         for it in range(iters):
             if fail:
                 break
